@@ -27,7 +27,7 @@ ASSUMPTIONS = [
     "depend on digits beyond double precision",
     "fail-fast rejection = any MetapypeRuleError; collecting rejection = non-empty list of well-formed entries",
 ]
-REQUIRED = ["single_children_standing_in_for_text", "same_node_same_list_validated_twice", "coordinate_anchor_cases", "validations_on_long_lived_node", "childless_judged_right_after_same_content_with_children", "accept_agree", "reject_agree", "failfast_calls", "collecting_calls"]
+REQUIRED = ["validations_below_a_real_parent", "single_children_standing_in_for_text", "same_node_same_list_validated_twice", "coordinate_anchor_cases", "validations_on_long_lived_node", "childless_judged_right_after_same_content_with_children", "accept_agree", "reject_agree", "failfast_calls", "collecting_calls"]
 EXHAUSTIVE = {"quick": False, "thorough": False}
 
 CONTENT_CODES_PREFIX = ("CONTENT_", "STR_CONTENT", "UNKNOWN_CONTENT_RULE")
@@ -81,14 +81,14 @@ _PREVIOUS = {}
 _NONE = object()
 
 
-def observe(rule_name, element, kids, content, reuse=False):
+def observe(rule_name, element, kids, content, reuse=False, below=None):
     res = []
     for mode in ("failfast", "collecting"):
         if reuse:
             n, _new = emlkit.long_lived_node(rule_name, element, kids)
             n.content = content
         else:
-            n = emlkit.make_node(rule_name, element, kids, content=content)
+            n = emlkit.make_node(rule_name, element, kids, content=content, nested=below or False)
         errs = None if mode == "failfast" else []
         prefilled = mode == "collecting" and len(str(content)) % 2 == 1
         if prefilled:
@@ -157,16 +157,16 @@ def same_list_twice(ctx, rule_name, element, kids, first, second):
         emlkit.discard(n)
 
 
-def judge(ctx, rule_name, element, kids, content, stats=None, after=None):
+def judge(ctx, rule_name, element, kids, content, stats=None, after=None, below=None):
     spec = emlkit.rules_table()[rule_name][2]
     mixed = emlkit.is_mixed(rule_name)
     exp, parts = C.rule_verdict(spec, content, mixed, bool(kids))
     # a third of the cases are validated on a long-lived node whose content is replaced in place (the previous content is part of
     # the witness: it is what a verdict remembered from last time would be about)
-    reuse = (len(str(content)) + len(rule_name)) % 3 == 0
+    reuse = (len(str(content)) + len(rule_name)) % 3 == 0 and below is None
     key = (rule_name, element, tuple(kids))
     previous = _PREVIOUS.get(key, _NONE) if reuse else _NONE
-    ff, co = observe(rule_name, element, kids, content, reuse)
+    ff, co = observe(rule_name, element, kids, content, reuse, below)
     if reuse:
         _PREVIOUS[key] = content
         ctx.count("validations_on_long_lived_node")
@@ -174,6 +174,8 @@ def judge(ctx, rule_name, element, kids, content, stats=None, after=None):
     ctx.count("failfast_calls")
     ctx.count("collecting_calls")
     wit = {"rule": rule_name, "element": element, "children": kids, "content": content}
+    if below is not None:
+        wit["below"] = below
     if previous is not _NONE:
         wit["previous_content_of_the_same_node"] = previous
     if after is not None:
@@ -299,6 +301,14 @@ def run(ctx, params):
                 judge(ctx, rule_name, elements[0], variants[1], v)
                 judge(ctx, rule_name, elements[0], variants[0], v, None, after=variants[1])
                 ctx.count("childless_judged_right_after_same_content_with_children")
+        # every element of the rule below every parent of the vocabulary that allows it (and below a few that do not): a node's content
+        # constraints are the node's, wherever it hangs
+        canon = emlkit.canonical_content(rule_name)
+        for el in elements:
+            for gp in tuple(emlkit.parents_allowing(el)) + ("section", "para", "metadata", "additionalMetadata", "dataset"):
+                for v in dict.fromkeys([None, "", " ", canon, "not a number", "2020-13-45"]):
+                    judge(ctx, rule_name, el, variants[0], v, below=gp)
+                    ctx.count("validations_below_a_real_parent")
         vs = [v for v in values[:60]]
         for a_, b_ in zip(vs, vs[1:]):
             same_list_twice(ctx, rule_name, elements[0], variants[0], a_, b_)
@@ -342,7 +352,7 @@ def replay(ctx, witness):
         observe(witness["rule"], witness["element"], witness["children"], witness["previous_content_of_the_same_node"], reuse=True)
     if witness.get("after_the_same_content_with_children"):
         judge(ctx, witness["rule"], witness["element"], witness["after_the_same_content_with_children"], witness["content"])
-    out = judge(ctx, witness["rule"], witness["element"], witness["children"], witness["content"])
+    out = judge(ctx, witness["rule"], witness["element"], witness["children"], witness["content"], below=witness.get("below"))
     ctx.distinct((witness["rule"], witness["content"]))
     ctx.distinct((witness["rule"], "replay"))
     ctx.sample({"witness": witness, "observed": out})
